@@ -117,16 +117,21 @@ def render_ns(ns, dests, classes=None, seen=None, info=None):
             out.append(["subgroups:" + k, rv(sg[k])])
     elif sg is not None:
         out.append(["subgroups", rv(sg)])
+    def rx(v):
+        if isinstance(v, pathlib.PurePath):
+            return "path:" + str(v)
+        if isinstance(v, (list, tuple)):
+            return ("list(" if isinstance(v, list) else "tuple(") + ",".join(rx(x) for x in v) + ")"
+        if isinstance(v, dict):
+            return "dict(" + ",".join(f"{k}={rx(x)}" for k, x in v.items()) + ")"
+        return rv(v)
+
+    # the value of the help-only --config_path argument is part of the result
+    if hasattr(ns, "config_path"):
+        out.append(["+config_path", rx(ns.config_path)])
     if info is not None:
-        def rx(v):
-            if isinstance(v, pathlib.PurePath):
-                return "path:" + str(v)
-            if isinstance(v, (list, tuple)):
-                return ("list(" if isinstance(v, list) else "tuple(") + ",".join(rx(x) for x in v) + ")"
-            if isinstance(v, dict):
-                return "dict(" + ",".join(f"{k}={rx(x)}" for k, x in v.items()) + ")"
-            return rv(v)
-        info["extra"] = sorted([k, rx(v)] for k, v in vars(ns).items() if k not in names and k != "subgroups")
+        info["extra"] = sorted([k, rx(v)] for k, v in vars(ns).items()
+                               if k not in names and k not in ("subgroups", "config_path"))
         info["aliased"] = aliased
     return out
 
